@@ -45,7 +45,7 @@ InOf(e) ==
                                 /\ Len(e.robjs) = 1 /\ e.robjs[1].ix \in {1, 2}
                      req(f, cl, ob, bad) == [k |-> "req", f |-> f, seq |-> e.seq, cl |-> cl, rep |-> rep,
                                              ob |-> ob, bad |-> bad] @@ adr
-                 IN CASE e.fc = 0 /\ e.src = "M" /\ e.dst = "U" -> [k |-> "conf", uns |-> e.uns, seq |-> e.seq]
+                 IN CASE e.fc = 0 /\ e.dst = "U" -> [k |-> "conf", uns |-> e.uns, seq |-> e.seq, src |-> e.src]
                       [] e.fc = 0 -> [k |-> "?"]
                       [] e.uns -> [k |-> "?"]
                       [] e.cls = "unkfn" -> req("unkfn", {}, "", "unkfn")
